@@ -5,6 +5,7 @@ CONSTANTS
   MaxPkts = @@PKTS@@
   MaxLen = @@LEN@@
   BodyClasses = {"any"}
+  Flags = {"none", "enc", "zpre"}
   MaxStall = 1
   Chunking = "all"
   Dev = {"shortHeader", "emptyNoLen", "unboundedInflate"}
